@@ -1992,7 +1992,8 @@ class TestGraph(object):
         test_node.started_worker = worker
 
         # add previous results if traversed for the first time (could be parsed on demand)
-        if len(test_node.results) == 0:
+        # by any worker since the results are shared and must be counted only once
+        if len(test_node.shared_results) == 0:
             # TODO: cannot do simpler comparison due to current limitations in the bridged form
             previous_results = [
                 r
